@@ -14,7 +14,8 @@ RULE = ("1-3 sample buffers per case, 1-4 frames per buffer: DF17 with correct p
         "bounded by n = min(rho * A_min, 0.19) with rho in [0, 0.316) drawn per buffer (every pulse >= 10 dB above every noise sample of its buffer), shapes zero/constant/uniform/two-level; "
         "reader created with object.__new__(RtlReader); consecutive _process_buffer() calls share the running noise floor. Oracle: the returned hex strings "
         "are exactly the admissible transmitted frames, in order, upper case, right length; every returned DF17 has reference CRC 0. "
-        "non-trivial = >= 2 frames of different length, odd start offset, rho > 0.1, or a corrupted DF17 present")
+        "non-trivial = >= 2 frames of different length, odd start offset, rho > 0.1, or a corrupted DF17 present"
+        ' Also: the noise level is drawn per buffer, the last frame of a buffer may end anywhere up to the buffer end, and complex IQ samples of arbitrary phase are delivered through _read_callback in read-size pieces (leg iq_callback).')
 ASSUMPTIONS = ["noise samples are additionally capped at 0.19: the preamble matcher accepts any sample >= 0.2 as a pulse, so stronger noise could legitimately "
                "look like a preamble and no threshold demodulator could be expected to reject it",
                "frames lie completely inside their buffer", "time stamps returned with the frames are ignored"]
